@@ -48,6 +48,16 @@ Theorem c20_no_match_cluster : forall m ls sd c es,
 Proof. exact spec_effective_no_match. Qed.
 Print Assumptions c20_no_match_cluster.
 
+(* --- selectors: a nil selector selects no node, an empty one every node, one that does not
+       convert (unknown operator, In/NotIn without values, Exists with values) no node --- *)
+Theorem c20_selector_cases : forall ls,
+  selects ls None = false /\ selects ls (Some []) = true
+  /\ (forall rs, forallb req_valid rs = false -> selects ls (Some rs) = false)
+  /\ (forall rs, forallb req_valid rs = true -> selects ls (Some rs) = forallb (req_matches ls) rs).
+Proof. exact (fun ls => conj (selects_nil ls) (conj (selects_empty ls)
+         (conj (selects_invalid ls) (selects_valid ls)))). Qed.
+Print Assumptions c20_selector_cases.
+
 (* --- no leak, over all histories: deleting from every ConfigMap every entry that does not select
        the node changes nothing of what the node observes after every event --- *)
 Theorem c20_no_leak : forall m sds ls ops,
@@ -87,6 +97,12 @@ Theorem c20_model_meets_spec : forall ss inp,
   prop_case inp (run_case inp) = 0.
 Proof. exact case_meets_spec. Qed.
 Print Assumptions c20_model_meets_spec.
+
+(* --- with the two departures switched off (the code after the patches proposed in findings/C20-*.md)
+       the model satisfies the property on EVERY history, without side condition --- *)
+Theorem c20_fixed_model_meets_spec : forall i, prop_code i (enc_obs (run ideal i)) = 0.
+Proof. exact ideal_model_meets_spec. Qed.
+Print Assumptions c20_fixed_model_meets_spec.
 
 (* --- and on EVERY input the model either satisfies the property or is exactly one of the
        known departures (so nothing else is hidden behind the known-finding signatures) --- *)
